@@ -71,6 +71,15 @@ func changeRequestToTarget(req *http.Request, httpsDefault bool) error {
 	return nil
 }
 
+// The client that talks to the origin. It relays what the origin says instead of acting on it:
+// a redirect is an answer for the client to follow (following it here would hand the client the
+// target's status and body and file them under the redirecting URL).
+var upstreamClient = &http.Client{
+	CheckRedirect: func(req *http.Request, via []*http.Request) error {
+		return http.ErrUseLastResponse
+	},
+}
+
 func sendRequestToTarget(req *http.Request, httpsDefault bool) (*http.Response, error) {
 	// Change request URL to point to the target server.
 	changeRequestToTarget(req, httpsDefault)
@@ -78,7 +87,7 @@ func sendRequestToTarget(req *http.Request, httpsDefault bool) (*http.Response, 
 	removeHopByHopHeaders(req.Header)
 
 	slog.Debug("Sending request", "url", req.URL, "method", req.Method)
-	resp, err := http.DefaultClient.Do(req)
+	resp, err := upstreamClient.Do(req)
 	if err != nil {
 		slog.Error("Error sending request to target", "url", req.URL, "error", err)
 		return nil, fmt.Errorf("%w: %v", ErrSendRequestFailed, err)
